@@ -15,7 +15,8 @@ Grammar
         | 'for' '(' ty id '=' e ';' id ('<'|'<=') e ';' '++' id ')' stmt | 'while' '(' e ')' stmt
         | 'return' [e | '{' '.' id '=' e, ... '}'] ';' | 'throw' id '(' ... ')' ';' | 'continue' ';' | 'break' ';' (switch arm end only)
         | decl ';' | lvalue ('='|'+='|'-=') e ';' (chained `a = b = e` allowed) | '++' id ';' | id '++' ';' | call ';'
-        | 'assert' '(' ... ')' ';' | 'using' ... ';' (both skipped)
+        | 'assert' '(' ... ')' ';' (skipped: NDEBUG build) | 'using' ... ';' (only if the client language's `using` hook accepts it)
+        a statement after return / throw / continue / break or after an if whose branches all leave is out of grammar (unreachable)
   arms := ('case' label ':' | 'default' ':')+ stmt* ['break' ';']  — an arm either ends with break / throw / return / continue
           or is empty (`[[fallthrough]]`: its labels are added to the next arm); real fall-through is out of grammar;
           a `default:` arm that only throws and is unreachable (all enumerators have a case) is dropped.
@@ -196,9 +197,12 @@ class Parser:
         if (k, v) == ("op", ";"):
             self.eat()
             return None
-        if k == "id" and v in ("using", "assert"):
+        if k == "id" and v == "assert":
             self.until((";",))
             return None
+        if k == "id" and v == "using":
+            toks, _ = self.until((";",))
+            return ("using", "".join(t[1] + (" " if t[0] == "id" else "") for t in toks).strip())
         if (k, v) == ("id", "__fallthrough"):
             self.eat(); self.eat("op", ";")
             return ("fallthrough",)
@@ -789,6 +793,13 @@ class Exec:
                 e3.writes = e2.writes
                 return rest(e3)
             return self.block(s[1], 0, env, leave, ctx)
+        if tag == "using":
+            # a using-declaration changes what names mean: the client language accepts the ones it knows (and may record them)
+            if not getattr(self.u.lang, "using", lambda X, text: False)(self, s[1]):
+                self.oog("using-declaration %r" % s[1])
+            return rest(env)
+        if tag in ("return", "throw", "continue", "break") and i + 1 < len(stmts):
+            self.oog("statement after %s in the same block (unreachable)" % tag)
         if tag == "return":
             if ctx.ret is None:
                 self.oog("return here")
@@ -819,6 +830,8 @@ class Exec:
             c = self.ex(s[1], env, "B")[1]
             pre, env = self.flush(env)
             arms = [(c, s[2]), (None, s[3] if s[3] is not None else [])]
+            if i + 1 < len(stmts) and not any("fall" in self.kinds(b, env) for _, b in arms):
+                self.oog("statement after an if whose branches all leave (unreachable)")
             return pre + self.branch(env, arms, lambda texts: "if %s then\n    %s\n    else\n    %s" % (c, texts[0], texts[1]), rest, ctx)
         if tag == "switch":
             e = self.ex(s[1], env)
